@@ -119,12 +119,28 @@ func TestHistories(t *testing.T) {
 			for rapid.IntRange(0, 6).Draw(t, "fault") == 0 && len(script) < 4 {
 				script = append([]hx.Outcome{rapid.SampledFrom([]hx.Outcome{hx.Busy, hx.TimeoutCC, hx.Garbage, hx.BadSig, hx.StrayOK, hx.StraySetup, hx.StrayASF}).Draw(t, "faultKind")}, script...)
 			}
+			// one command in eight is given up by its caller: every attempt gets a
+			// retryable answer and the context ends while the last one is in flight
+			abandoned := rapid.IntRange(0, 7).Draw(t, "abandoned") == 0
+			budget := len(script) + 2
+			if abandoned {
+				script = script[:len(script)-1]
+				if len(script) == 0 {
+					script = []hx.Outcome{hx.Busy, hx.Busy}
+				}
+				budget = len(script)
+				desc[len(desc)-1] += " (abandoned)"
+				ev.Label("abandoned-command")
+			}
 			sc.Script, sc.Pos = script, 0
 			before := len(w.BMC.Log)
-			ctx, cancel := w.Ctx(len(script) + 2)
+			ctx, cancel := w.Ctx(budget)
 			_, err := sess.SendCommand(ctx, cmd)
 			cancel()
-			if err != nil {
+			if abandoned && err == nil {
+				t.Fatalf("harness: command %d (%s) succeeded although every reply was retryable", i, ex.name)
+			}
+			if err != nil && !abandoned {
 				t.Fatalf("command %d (%s) failed: %v; BMC: %v", i, ex.name, err, w.BMC.AllProblems())
 			}
 			got := w.BMC.Log[before:]
@@ -221,5 +237,5 @@ func TestCoverage(t *testing.T) {
 	for _, s := range hx.Suites12() {
 		need = append(need, "suite:"+s.String())
 	}
-	ev.RequireLabels(t, 1, append(need, "custom-netfn-0x30-0x3e")...)
+	ev.RequireLabels(t, 1, append(need, "custom-netfn-0x30-0x3e", "abandoned-command")...)
 }
